@@ -460,6 +460,69 @@ def _run_xm(griffe, acc, only=None):
                 acc.violation(f"xm/{what}/{via}", detail, cd, None, size=1)
 
 
+# XL: the hierarchy spread over two PACKAGES loaded one after the other with the same loader (dependency first): what the extension worked out for the
+# first package (its fields, init-only variables included, which are then removed from the class members) must still hold when the second one is processed
+XL_BASES = {
+    "initvar": "import dataclasses\nfrom dataclasses import dataclass, InitVar\n@dataclass\nclass Base:\n    a: int\n    scale: InitVar[int]\n    b: int = 0\n",
+    "kw-only": "import dataclasses\nfrom dataclasses import dataclass, KW_ONLY, field\n@dataclass\nclass Base:\n    a: int\n    _: KW_ONLY\n    k: int = field(default=1)\n",
+    "init-false": "from dataclasses import dataclass, field\n@dataclass(init=False)\nclass Base:\n    a: int\n    h: int = field(init=False, default=0)\n    def __init__(self, hand): ...\n",
+}
+
+
+def _run_xl(griffe, acc, only=None):
+    import importlib
+    import sys
+
+    from _griffe.extensions import dataclasses as dcext
+
+    for bname, bsrc in XL_BASES.items():
+        for mid in (False, True):
+            if only is not None and (bname, mid) != only:
+                continue
+            files = {"xl18a/__init__.py": bsrc, "xl18b/__init__.py": "from dataclasses import dataclass\nfrom xl18a import Base\n@dataclass\nclass Derived(Base):\n    c: int = 1\n"}
+            if mid:
+                files["xl18a/__init__.py"] = bsrc + "class Mid(Base):\n    pass\n"
+                files["xl18b/__init__.py"] = files["xl18b/__init__.py"].replace("import Base", "import Mid as Base")
+            cd = {"case": ["XL", bname, mid], "files": files}
+            with sandbox.scratch_dir("c18l") as d, sandbox.interpreter_state():
+                sandbox.write_tree(d, files)
+                sys.path.insert(0, d)
+                importlib.invalidate_caches()
+                try:
+                    mods = {m: importlib.import_module(m) for m in ("xl18a", "xl18b")}
+                except Exception as e:  # noqa: BLE001
+                    acc.case(cd, outcome="xl:rejected:" + type(e).__name__, nontrivial=False)
+                    continue
+                finally:
+                    for k in [k for k in sys.modules if k.split(".")[0] in ("xl18a", "xl18b")]:
+                        del sys.modules[k]
+                dcext._dataclass_parameters.cache_clear()
+                try:
+                    loader = griffe.GriffeLoader(search_paths=[d], allow_inspection=False)
+                    loader.load("xl18a")
+                    loader.load("xl18b")
+                    loader.resolve_aliases(implicit=True, external=False)
+                except Exception as e:  # noqa: BLE001
+                    acc.violation(f"xl/load-raises-{type(e).__name__}", f"load raised {e!r}", cd, None, size=1)
+                    continue
+                probs = []
+                for modname, cname in (("xl18a", "Base"), ("xl18b", "Derived")):
+                    if mid and cname == "Base":
+                        cname = "Mid"
+                    k = getattr(mods[modname], cname if not (mid and modname == "xl18b") else "Derived")
+                    gc = loader.modules_collection[modname].members["Derived" if modname == "xl18b" else cname]
+                    if "__init__" in vars(k):
+                        exp = _sig_tuple(inspect.signature(vars(k)["__init__"]))
+                        gm = gc.members.get("__init__")
+                        got = None if gm is None else _gparams(gm.parameters)
+                        if got != exp:
+                            probs.append((f"init/{'Derived' if modname == 'xl18b' else 'Base'}", f"{modname}.{gc.name}.__init__: Griffe {got}, CPython {exp}"))
+                acc.case(cd, outcome="xl:" + ("mismatch" if probs else "ok"), nontrivial=True)
+                acc.observe([p[0] for p in probs])
+                if probs:
+                    acc.violation(f"xl/{probs[0][0]}/{bname}{'/through-plain-subclass' if mid else ''}", probs[0][1], cd, None, size=1)
+
+
 def _reduce(griffe, case, prob, key):
     """Shrink while the same key persists."""
     def still(c):
@@ -517,6 +580,7 @@ def run_shard(shard, tier):
     reduced: dict = {}
     if shard == 0:
         _run_xm(griffe, acc)
+        _run_xl(griffe, acc)
     for idx, case in enumerate(all_cases(tier)):
         if idx % NSHARDS != shard:
             continue
@@ -551,6 +615,10 @@ def replay(case):
     import griffe
 
     c = _detuple(case["case"])
+    if c and c[0] == "XL":
+        acc = Acc()
+        _run_xl(griffe, acc, only=(c[1], c[2]))
+        return [(k, v["summary"], v["detail"]) for k, v in acc.violations.items()]
     if c and c[0] == "XM":
         acc = Acc()
         _run_xm(griffe, acc, only=tuple(c[1:]))
